@@ -171,6 +171,40 @@ def check_blend(P, R):
                 R.violation("DEP.alpha-form", f.key, f"alpha = {src(v)}", "alpha is not n / (n + relevance_factor): the blend is not a convex combination governed by the relevance factor", st.lineno)
 
 
+def _map_side(test):
+    """True when `test` holds exactly for the MAP trainer / an existing prior, False when it holds for the opposite, None otherwise."""
+    if isinstance(test, ast.UnaryOp) and isinstance(test.op, ast.Not):
+        m = _map_side(test.operand)
+        return None if m is None else not m
+    if isinstance(test, ast.BoolOp):
+        ms = [m for m in (_map_side(v) for v in test.values) if m is not None]
+        return ms[0] if ms and all(m == ms[0] for m in ms) else None
+    if isinstance(test, ast.Compare) and len(test.ops) == 1:
+        l, r, op = test.left, test.comparators[0], test.ops[0]
+        for a, b in ((l, r), (r, l)):
+            if isinstance(a, (ast.Attribute, ast.Name)) and src(a).split(".")[-1] == "trainer":
+                vals = [b.value] if isinstance(b, ast.Constant) else [x.value for x in b.elts if isinstance(x, ast.Constant)] if isinstance(b, (ast.Tuple, ast.List, ast.Set)) else []
+                vals = [str(v).lower() for v in vals if isinstance(v, str)]
+                if not vals:
+                    return None
+                pos = isinstance(op, (ast.Eq, ast.In, ast.Is))
+                if not pos and not isinstance(op, (ast.NotEq, ast.NotIn, ast.IsNot)):
+                    return None
+                if "map" in vals and "ml" not in vals:
+                    return pos
+                if "ml" in vals and "map" not in vals:
+                    return not pos
+                return None
+            if isinstance(a, (ast.Attribute, ast.Name)) and src(a).split(".")[-1] == "ubm" and isinstance(b, ast.Constant) and b.value is None:
+                if isinstance(op, (ast.IsNot, ast.NotEq)):
+                    return True
+                if isinstance(op, (ast.Is, ast.Eq)):
+                    return False
+    if isinstance(test, (ast.Attribute, ast.Name)) and src(test).split(".")[-1] == "ubm":
+        return True
+    return None
+
+
 def check_prior_handover(P, R, key):
     """The prior's parameters are handed over as deep copies, floors first - in the function itself or in a helper method it
     calls on the same object (`self._copy_ubm_parameters()`)."""
@@ -197,6 +231,13 @@ def check_prior_handover(P, R, key):
                 copied = isinstance(v, ast.Call) and (src(v.func) in ("copy.deepcopy", "deepcopy", "np.array", "np.copy", "numpy.array") or (isinstance(v.func, ast.Attribute) and v.func.attr == "copy"))
                 R.check(copied, "OWN.prior-copy", f.key, f"{src(t)} = {src(v)[:50]}", "deep copy of the prior's array", f"the machine's {t.attr} alias the prior's array: later changes to the prior (or to the adapted machine) leak into the other", st.lineno)
                 R.check(from_ubm == {t.attr}, "OWN.prior-attr", f.key, f"{src(t)} <- ubm.{sorted(from_ubm)}", "same-named prior attribute", f"{t.attr} initialised from the prior's {sorted(from_ubm)}", st.lineno)
+                # polarity: the hand-over sits on the MAP side / the prior-present side of every switch around it
+                from ..cfg import enclosing_guards
+                for test, pol_ in enclosing_guards(st):
+                    m = _map_side(test)
+                    if m is None:
+                        continue
+                    R.check(m == pol_, "BRANCH.prior-side", f.key, f"{src(t)} handed over under `{src(test)[:40]}` ({'then' if pol_ else 'else'} arm)", "the MAP / prior-present side", f"the prior's {t.attr} are handed over on the side of `{src(test)[:40]}` where the trainer is not MAP (or no prior exists); the MAP machine starts from k-means instead of the prior", st.lineno)
         if here:
             check_setter_order(P, R, f, f.node.body, "prior hand-over", "ORDER.floors-first")
         found.update(here)
